@@ -81,7 +81,7 @@ VARIANTS_X = {
     'FULLY_CONNECTED': [('nokeepdims', 1)],
     'CONV_2D': [('2x2valid_relu6', 1)],
     'DEPTHWISE_CONV_2D': [('m2', 1)],
-    'BATCH_MATMUL': [('const_adjx', 1)],
+    'BATCH_MATMUL': [('const_adjx', 1), ('const_b2', 1)],
     'AVERAGE_POOL_2D': [('2x2valid', 1)],
     'SOFTMAX': [('beta2', 1)],
     'MEAN': [('nokeep', 1)],
@@ -437,6 +437,15 @@ def _b_bmm(c, v, ins):
     y = c.out(sh[:-2] + [sh[-1], 4])
     c.g.op(BO.BATCH_MATMUL, [x, w], [y], OPT.BatchMatMulOptions,
            _opt(s.BatchMatMulOptionsT, adjX=True))
+    return [y], 'DW', w
+  if v == 'const_b2':
+    # constant RHS with a batch dimension of 2 (broadcast against the LHS)
+    if len(sh) < 3 or sh[0] != 1:
+      return None
+    w = c.fconst('w', [2] + lead[1:] + [sh[-1], 4], weight=True)
+    y = c.out([2] + sh[1:-1] + [4])
+    c.g.op(BO.BATCH_MATMUL, [x, w], [y], OPT.BatchMatMulOptions,
+           s.BatchMatMulOptionsT())
     return [y], 'DW', w
   if v == 'const':
     w = c.fconst('w', lead + [sh[-1], 4], weight=True)
